@@ -1081,7 +1081,12 @@ func (w *c39World) deliver(d *c39Delivery, signed *pairingtypes.RelayRequest, bd
 	ctx, cancel = context.WithTimeout(ctx, 10*time.Second)
 	reply, err := w.srv.Relay(ctx, req)
 	cancel()
-	alone := others0 == 0 && w.activity == act0 && w.epochGen == gen0
+	// epochGen is odd while an UpdateEpoch call is in progress
+	epochStable := gen0%2 == 0 && w.epochGen == gen0
+	alone := others0 == 0 && w.activity == act0 && epochStable
+	if os.Getenv("VERIF_C39_DEBUG") != "" {
+		fmt.Fprintf(os.Stderr, "deliver #%d returned: gen0=%d gen=%d others0=%d act0=%d act=%d cur=%d blocked=%d err=%v\n", d.id, gen0, w.epochGen, others0, act0, w.activity, w.curEpoch, w.psm.ZZVerifBlockedEpoch(), err)
+	}
 	w.inFlight--
 	w.activity++
 	d.returned = true
@@ -1130,7 +1135,7 @@ func (w *c39World) deliver(d *c39Delivery, signed *pairingtypes.RelayRequest, bd
 		}
 		w.credits[projKey] += credit
 		r.OracleEvals += 3
-		if w.epochGen == gen0 {
+		if epochStable {
 			if !sok || sl.CuSum != prevCu+credit || sl.RelayNum != s.RelayNum || sl.LatestRelayCu != 0 || !sl.LockFree {
 				r.SetViolation("served-relay-session-accounting", d.kind, fmt.Sprintf("after serving delivery #%d (session cuSum %d -> signed %d, relay %d): session found=%v cuSum=%d relayNum=%d latestRelayCu=%d lockFree=%v", d.id, prevCu, s.CuSum, s.RelayNum, sok, sl.CuSum, sl.RelayNum, sl.LatestRelayCu, sl.LockFree))
 				return
@@ -1162,7 +1167,7 @@ func (w *c39World) deliver(d *c39Delivery, signed *pairingtypes.RelayRequest, bd
 		r.Probe("reply_and_error")
 	}
 	r.OracleEvals++
-	if w.epochGen != gen0 {
+	if !epochStable {
 		r.Probe("digest_skipped_epoch_moved")
 	} else if alone {
 		if beforeFull != afterFull {
@@ -1217,8 +1222,14 @@ func (w *c39World) epochTask(n int) {
 		simrt.Resume("harness:epoch-sleep")
 		w.curEpoch += w.epochSize
 		w.epochGen++
+		if os.Getenv("VERIF_C39_DEBUG") != "" {
+			fmt.Fprintf(os.Stderr, "epoch task: calling UpdateEpoch(%d) gen=%d\n", w.curEpoch, w.epochGen)
+		}
 		w.psm.UpdateEpoch(w.curEpoch)
 		w.epochGen++
+		if os.Getenv("VERIF_C39_DEBUG") != "" {
+			fmt.Fprintf(os.Stderr, "epoch task: UpdateEpoch(%d) returned gen=%d\n", w.curEpoch, w.epochGen)
+		}
 		r.Fault("epoch_advanced")
 		r.Logf("epoch: UpdateEpoch(%d), epochs <= %d are blocked now", w.curEpoch, w.psm.ZZVerifBlockedEpoch())
 	}
